@@ -22,7 +22,9 @@
      openable   zip.File.Open succeeds (the compression method is supported);
      b          what the extracted content looks like to the recursive mode: [Plain] = http.DetectContentType does not
                 say zip; [BadZip] = sniffed as zip but zip.NewReader fails; [GoodZip] = an archive, whose entries are
-     nested     (only meaningful for [GoodZip]).
+     nested     (only meaningful for [GoodZip]);
+     rm_ok      environment, not archive: removing the nested archive after it has been unzipped (fs.Rm, zip.go:390)
+                succeeds; false = the back end refuses the removal (fault injection in the harness).
    Nesting is unbounded: [entry] is a nested inductive type. *)
 From Coq Require Import List ZArith Bool String.
 Import ListNotations.
@@ -38,7 +40,7 @@ Inductive body := Plain | BadZip | GoodZip.
 
 Inductive entry :=
 | EDir (d : Z)
-| EFile (d : Z) (zipname : bool) (declared actual : Z) (crc_ok openable : bool) (b : body) (nested : list entry).
+| EFile (d : Z) (zipname : bool) (declared actual : Z) (crc_ok openable : bool) (b : body) (rm_ok : bool) (nested : list entry).
 
 (* what is on disk below the top-level destination: depth = separators in the path relative to it *)
 Inductive node := NDir (depth : Z) | NFile (depth size : Z).
@@ -110,8 +112,9 @@ Record facts := mkFacts {
   zf_size_before_copy : bool;            (* the declared size is checked before anything is copied *)
   zf_bounded_copy : bool;                (* CopyNWithContext(ctx, sourceFile, destinationFile, fileSizeOnDisk), fileSizeOnDisk = info.Size() *)
   zf_eos_probe : bool;                   (* followed by the end-of-stream probe (the C03 repair) *)
-  (* unzipNestedZipFiles: unzip(..., limits, currentDepth + ns_depth_inc) *)
+  (* unzipNestedZipFiles: unzip(..., limits, currentDepth + ns_depth_inc); the error of fs.Rm(nestedZipFile) is returned *)
   ns_depth_inc : Z;
+  ns_rm_error_returned : bool;
   (* canonical traces: the limit-relevant statements of each function in source order *)
   tr_newzipreader : list string; tr_unzip : list string; tr_nested : list string; tr_zippedfile : list string
 }.
@@ -144,6 +147,7 @@ Definition expected : facts := {|
   zf_bounded_copy := true;
   zf_eos_probe := true;
   ns_depth_inc := 1%Z;
+  ns_rm_error_returned := true;
   tr_newzipreader := [
     "if apply && GMaxDepth CGe 0 && VCurrentDepth CGt GMaxDepth {";
     "refuse(TooLarge)";
@@ -204,7 +208,8 @@ Definition expected : facts := {|
   ];
   tr_nested := [
     "nestedUnzippedFiles,fileOnDiskCount,filesSizeOnDisk,subErr := unzip(nestedZipFile,destination,limits,currentDepth+1)";
-    "rm(nestedZipFile)"
+    "subErr = rm(nestedZipFile)";
+    "if subErr != nil { err = wrap(subErr) }"
   ];
   tr_zippedfile := [
     "if apply && GMaxDepth CGt 0 && VCurrentDepth CGt GMaxDepth {";
@@ -298,7 +303,7 @@ Definition dir_effF (F : facts) (lim : limits) (cur base d : Z) : eff :=
 (* a file entry: :302-364 with unzipZippedFile and unzipNestedZipFiles inlined.  [sub c b'] are the effects of the
    entries of the nested archive when it is unzipped with currentDepth c into a destination at true depth b'. *)
 Definition file_effF (F : facts) (lim : limits) (cur base d : Z) (zn : bool) (decl act : Z) (crc op : bool) (b : body)
-                     (sub : Z -> Z -> list eff) : eff :=
+                     (rmok : bool) (sub : Z -> Z -> list eff) : eff :=
   let fd := entry_depthF F lim cur d in
   let c0 := count0F F lim zn in
   let pdir := parent_dir base d in
@@ -325,8 +330,13 @@ Definition file_effF (F : facts) (lim : limits) (cur base d : Z) (zn : bool) (de
     (* unzipNestedZipFiles: unzip(nested, dir/stem, limits, fileDepth+1), then Rm(nested) *)
     let r := open_archiveF F lim (fd + ns_depth_inc F) written (is_good b) [NDir here] (sub (fd + ns_depth_inc F) (here + 1)) in
     match r_kind r with
-    | None => mkEff None (c0 + (if lp_nested_count_added F then r_cnt r else 0))
-                         (if lp_nested_total_added F then r_tot r else 0) true (pdir ++ r_nodes r) (w ++ r_writes r)   (* :352-354 *)
+    | None =>
+        let c := c0 + (if lp_nested_count_added F then r_cnt r else 0) in
+        let t := if lp_nested_total_added F then r_tot r else 0 in
+        if rmok then mkEff None c t true (pdir ++ r_nodes r) (w ++ r_writes r)                                         (* :352-354 *)
+        (* fs.Rm(nestedZipFile) fails: the archive stays on disk; the error is returned (:390-393) — or dropped *)
+        else if ns_rm_error_returned F then mkEff (Some Other) c0 0 false (pdir ++ fnode :: r_nodes r) (w ++ r_writes r)
+        else mkEff None c t true (pdir ++ fnode :: r_nodes r) (w ++ r_writes r)
     | Some k => mkEff (Some k) c0 0 false (pdir ++ fnode :: r_nodes r) (w ++ r_writes r)                               (* :349-351 *)
     end
   else mkEff None (c0 + (if lp_zipname_counted F then count1F F lim zn else 0))
@@ -337,8 +347,8 @@ Definition file_effF (F : facts) (lim : limits) (cur base d : Z) (zn : bool) (de
 Fixpoint entry_effF (F : facts) (lim : limits) (cur base : Z) (e : entry) {struct e} : eff :=
   match e with
   | EDir d => dir_effF F lim cur base d
-  | EFile d zn decl act crc op b nested =>
-      file_effF F lim cur base d zn decl act crc op b (fun c b' => map (entry_effF F lim c b') nested)
+  | EFile d zn decl act crc op b rmok nested =>
+      file_effF F lim cur base d zn decl act crc op b rmok (fun c b' => map (entry_effF F lim c b') nested)
   end.
 
 (* VFS.UnzipWithContextAndLimits: unzip(ctx, source, destination, limits, 0) *)
@@ -356,7 +366,7 @@ Definition node_depth (n : node) : Z := match n with NDir d => d | NFile d _ => 
 Fixpoint wfb (e : entry) : bool :=
   match e with
   | EDir d => 0 <=? d
-  | EFile d _ decl act _ _ _ nested =>
+  | EFile d _ decl act _ _ _ _ nested =>
       (0 <=? d) && (0 <=? decl) && (decl <? 2 ^ 64) && (0 <=? act) && forallb wfb nested
   end.
 
